@@ -172,8 +172,8 @@ class CanvasCache:
     def cleanup(cls, ref: weakref.ReferenceType) -> None:
         cls.cleanups += 1  # collect stats
 
-        w = cls._refs.get(ref, None)
-        del cls._refs[ref]
+        # an invalidation (also one started by another canvas collected in the same pass) may have removed it already
+        w = cls._refs.pop(ref, None)
         if not w:
             return
         widget, wcls, size, focus = w
